@@ -52,7 +52,7 @@ LEAVES = [
     ('add', 'Polynomial', 'Polynomial', 'Polynomial', 'pmerge'),
     ('mul', 'Linear', 'f64', 'Linear', 'free'), ('mul', 'Linear', 'Linear', 'Quadratic', 'mulll'),
     ('mul', 'Quadratic', 'f64', 'Quadratic', 'free'), ('mul', 'Quadratic', 'Linear', 'Polynomial', 'gmull'), ('mul', 'Quadratic', 'Quadratic', 'Polynomial', 'gmul'),
-    ('mul', 'Polynomial', 'f64', 'Polynomial', 'free'), ('mul', 'Polynomial', 'Linear', 'Polynomial', 'map'), ('mul', 'Polynomial', 'Quadratic', 'Polynomial', 'map'),
+    ('mul', 'Polynomial', 'f64', 'Polynomial', 'free'), ('mul', 'Polynomial', 'Linear', 'Polynomial', 'mup'), ('mul', 'Polynomial', 'Quadratic', 'Polynomial', 'mup'),
     ('mul', 'Polynomial', 'Polynomial', 'Polynomial', 'pmul'),
 ]
 
@@ -87,7 +87,7 @@ def spec_impl(op, a, b, c, req='true'):
 def leaf_spec_text():
     out = ['// ---- leaf remainders: 0 for map-free code, uninterpreted for the assumed BTreeMap-merge leaves ----\n']
     for op, a, b, c, kind in LEAVES:
-        sig = 'pub %s spec fn %s(x: v1::%s, y: %s, m: Map<u64, F64>) -> real' % ('open' if kind in ('free', 'merge', 'deleg', 'merge2', 'mulll', 'pmerge', 'pmul', 'up', 'gmul', 'gmull') else 'uninterp', rem_name(op, a, b), a, 'F64' if b == 'f64' else 'v1::' + b)
+        sig = 'pub %s spec fn %s(x: v1::%s, y: %s, m: Map<u64, F64>) -> real' % ('open' if kind in ('free', 'merge', 'deleg', 'merge2', 'mulll', 'pmerge', 'pmul', 'up', 'gmul', 'gmull', 'mup') else 'uninterp', rem_name(op, a, b), a, 'F64' if b == 'f64' else 'v1::' + b)
         if kind == 'merge2':
             assert (op, a, b) == ('add', 'Quadratic', 'Quadratic')
             out.append('pub open spec fn rem_add_quadratic_quadratic(x: v1::Quadratic, y: v1::Quadratic, m: Map<u64, F64>) -> real {\n'
@@ -118,6 +118,13 @@ def leaf_spec_text():
             # second operand is the keyed term list of rhs
             assert (op, a, b) == ('mul', 'Quadratic', 'Linear')
             out.append(sig + ' { rem_gmul(quad_titems(x), lkeyed(y), m) }\n')
+            continue
+        if kind == 'mup':
+            # verified macro instance impl_mul_from!(Polynomial, B, Polynomial) = self * Polynomial::from(rhs): the upcast lists a map g with sorted keys; the product map of Polynomial * Polynomial does
+            # not depend on the order of that listing (lemma_gmat_listing); the remainder is DEFINED: what the upcast dropped, times self, plus the entries the final collect drops
+            assert op == 'mul' and a == 'Polynomial'
+            g = {'Linear': 'lmap(y)', 'Quadratic': 'qmap(y)'}[b]
+            out.append(sig + ' { rem_mul_up(x, %s, %s, m) }\n' % (g, v(b, 'y')))
             continue
         if kind == 'pmul':
             # verified leaf: the loops of Polynomial * Polynomial build the EXACT product under canonical (sorted) keys; the final collect drops the entries with |v| <= EPSILON
@@ -649,6 +656,28 @@ def typed_macro_units():
         }
         ''' % (f(a, 'self'), f(b, 'rhs'), g, v(b, 'rhs'), rem_name('add', a, b), g))])
         u.rsubs += [(r'self \+ Polynomial::from\(rhs\)', 'let __p = Polynomial::from%s(rhs); let __r = self + __p; __r' % ('_quadratic' if b == 'Quadratic' else ''), 1)]
+        U.append(u)
+    # Polynomial * B = self * Polynomial::from(rhs) (impl_mul_from!)
+    for args, ln in core.macro_invocations('polynomial.rs', 'impl_mul_from'):
+        a, b, c = args
+        if (a, c) != ('Polynomial', 'Polynomial') or b not in ('Linear', 'Quadratic'):
+            continue
+        g = {'Linear': 'lmap(rhs)', 'Quadratic': 'qmap(rhs)'}[b]
+        u = unit('polynomial.rs', 'impl_mul_from', args, ln, 'mul', 'impl core::ops::Mul<%s> for Polynomial { type Output = Polynomial;' % T[b]['rust'], si_req('Mul', 'mul', a, b, a, qreq(a, b)),
+                 'fn mul(self, rhs: %s) -> (r: Polynomial)\n        ensures %s' % (T[b]['rust'], contract('mul', a, b, a)),
+                 proofs=[(('before', r'__r\s*\}\s*$'), '''proof {
+            if %(fa)s && %(fb)s {
+                lemma_plists_fin(__p, %(g)s);
+                assert forall|m: Map<u64, F64>| #![trigger polynomial_val(__r, m)] polynomial_val(__r, m) == polynomial_val(self, m) * %(vb)s - %(rem)s(self, rhs, m)
+                    && polynomial_val(__r, m) == %(vb)s * polynomial_val(self, m) - %(rem)s(self, rhs, m) by {
+                    lemma_pmul_up(self, __p, %(g)s, %(vb)s, m);
+                    let x = polynomial_val(self, m); let y = %(vb)s;
+                    assert(x * y == y * x) by(nonlinear_arith);
+                }
+            }
+        }
+        ''' % dict(fa=f(a, 'self'), fb=f(b, 'rhs'), g=g, vb=v(b, 'rhs'), rem=rem_name('mul', a, b)))])
+        u.rsubs += [(r'self \* Polynomial::from\(rhs\)', 'let __p = Polynomial::from%s(rhs); let __r = self * __p; __r' % ('_quadratic' if b == 'Quadratic' else ''), 1)]
         U.append(u)
     # Quadratic * Linear = self * Quadratic::from(rhs) (impl_mul_from!): the upcast is exact
     for args, ln in core.macro_invocations('quadratic.rs', 'impl_mul_from'):
